@@ -27,7 +27,7 @@ import (
 // is therefore a list of integers that rapid generates and shrinks, or that a
 // depth-first enumeration walks exhaustively.
 
-var hC11 = hx.New("C11", "controlled schedules: 2-3 workers, each a program of 1-3 operations from PushMessage (2-3 shared sequences; completing, non-completing and EOE records), Maintain and Close, with a Stream that may re-enter the Reassembler (Maintain, PushMessage of a fresh sequence, Close) from inside callbacks; maxInFlight 0..2; timeout 1h or -1s; the interleaving at the granularity of the Reassembler's atomic steps (yield hook, build tag verif) is a generated list of choices: random (rapid, shrinks with the programs) and bounded-exhaustive depth-first enumeration of all schedules of a catalogue of programs. Uncontrolled form: goroutines on real threads under the race detector. Oracle: no message delivered twice, callbacks single-sequence and non-empty, every message whose push returned before the first Close was invoked is delivered exactly once when all calls have returned, exactly one Close returns nil, no deadlock (declared only when all workers run freely and make no progress), race detector silent. Non-trivial = schedule with at least one preemption inside an operation and at least one delivery; distinct by hash of (programs, schedule actually taken)")
+var hC11 = hx.New("C11", "controlled schedules: 2-3 workers, each a program of 1-3 operations from PushMessage (2-3 shared sequences; completing, non-completing and EOE records), Maintain and Close, with a Stream that may re-enter the Reassembler (Maintain, PushMessage of a fresh sequence, of an EOE or of a terminating record for a shared sequence, Close) from inside callbacks; maxInFlight 0..2; timeout 1h or -1s; the interleaving at the granularity of the Reassembler's atomic steps (yield hook, build tag verif) is a generated list of choices: random (rapid, shrinks with the programs) and bounded-exhaustive depth-first enumeration of all schedules of a catalogue of programs. Uncontrolled form: goroutines on real threads under the race detector. Oracle: no message delivered twice, callbacks single-sequence and non-empty, every message whose push returned before the first Close was invoked is delivered exactly once when all calls have returned, exactly one Close returns nil, no deadlock (declared only when all workers run freely and make no progress), race detector silent. Non-trivial = schedule with at least one preemption inside an operation and at least one delivery; distinct by hash of (programs, schedule actually taken)")
 
 type SOp struct {
 	K   string `json:"k"` // push, maintain, close
@@ -169,6 +169,12 @@ func (s *c11stream) ReassemblyComplete(msgs []*auparse.AuditMessage) {
 			_ = s.r.Maintain()
 		case "push":
 			s.run.push(s.r, fresh, 1300)
+		case "pusheoe":
+			// end-of-event for one of the shared sequences: may release a whole batch of buffered events
+			s.run.push(s.r, 1+(fresh%3), eoe)
+		case "pushdone":
+			// a terminating record for one of the shared sequences
+			s.run.push(s.r, 1+(fresh%3), 1327)
 		case "close":
 			s.run.close(s.r)
 		}
@@ -357,7 +363,7 @@ var c11Types = []uint16{1300, 1300, 1302, 1327, 1100, eoe}
 
 func genC11(rt *rapid.T) C11Case {
 	c := C11Case{MaxInFlight: rapid.IntRange(0, 2).Draw(rt, "maxInFlight"), Expired: rapid.IntRange(0, 3).Draw(rt, "expired") == 0}
-	c.Reenter = rapid.SampledFrom([]string{"", "", "maintain", "push", "close"}).Draw(rt, "reenter")
+	c.Reenter = rapid.SampledFrom([]string{"", "", "maintain", "push", "close", "pusheoe", "pushdone"}).Draw(rt, "reenter")
 	nw := rapid.IntRange(2, 3).Draw(rt, "workers")
 	for i := 0; i < nw; i++ {
 		var p []SOp
@@ -410,6 +416,8 @@ func c11Catalogue() []catEntry {
 		{"reenter close: push,push | push,maintain", C11Case{MaxInFlight: 1, Reenter: "close", Progs: [][]SOp{{P(1, 1327), P(2, 1300)}, {P(3, 1327), opM}}}},
 		{"reenter push: push | push,close", C11Case{MaxInFlight: 1, Reenter: "push", Progs: [][]SOp{{P(1, 1327)}, {P(2, 1327), opC}}}},
 		{"reenter close: close | push", C11Case{MaxInFlight: 0, Reenter: "close", Progs: [][]SOp{{opC}, {P(1, 1300)}}}},
+		{"reenter pusheoe: push,push,push,push | maintain", C11Case{MaxInFlight: 3, Reenter: "pusheoe", Progs: [][]SOp{{P(1, 1300), P(2, 1327), P(3, 1327), P(1, eoe)}, {opM}}}},
+		{"reenter pushdone: push,push,push | push,close", C11Case{MaxInFlight: 3, Reenter: "pushdone", Progs: [][]SOp{{P(1, 1300), P(2, 1300), P(3, 1327)}, {P(1, 1327), opC}}}},
 		{"maintain | maintain | push,push", C11Case{MaxInFlight: 0, Progs: [][]SOp{{opM}, {opM}, {P(1, 1300), P(2, 1327)}}}},
 		{"eoe: push,eoe | push,eoe", C11Case{MaxInFlight: 2, Progs: [][]SOp{{P(1, 1300), P(2, eoe)}, {P(2, 1300), P(1, eoe)}}}},
 		// larger programs: only in the thorough tier
